@@ -1,7 +1,131 @@
 import TTV.Sexp
-/-! Driver glue for C20 — stub, replaced when the property's model is built. -/
+import TTV.Model.Deferred
+import TTV.Spec.C20
+/-! Driver glue for C20: codecs between S-expressions and `Deferred.Input` / `Deferred.Trace`. -/
 namespace TTV.Drv.C20
-open TTV
+open TTV TTV.Sexp TTV.Deferred
 
-def handle (_ : List Sexp) : Sexp := .atom "unimplemented"
+partial def val? : Sexp → Option Val
+  | .atom "none" => some .none
+  | .list [.atom "num", n] => (nat? n).map .num
+  | .list [.atom "pair", a, b] => do some (.pair (← val? a) (← val? b))
+  | _ => none
+def ofVal : Val → Sexp
+  | .none => .atom "none"
+  | .num n => tag "num" [ofNat n]
+  | .pair a b => tag "pair" [ofVal a, ofVal b]
+
+def res? : Sexp → Option Res
+  | .list [.atom "ok", v] => (val? v).map .ok
+  | .list [.atom "fail", e] => (nat? e).map .fail
+  | _ => none
+def ofRes : Res → Sexp
+  | .ok v => tag "ok" [ofVal v]
+  | .fail e => tag "fail" [ofNat e]
+
+def act? : Sexp → Option Act
+  | .atom "keep" => some .keep | .atom "inc" => some .inc | .atom "wait" => some .wait
+  | .list [.atom "ret", r, f] => do some (.ret (← res? r) (← bool? f))
+  | _ => none
+
+/-- inputs carry plain callbacks and probes only -/
+def tag? : Sexp → Option Tag
+  | .atom "plain" => some .plain
+  | .list [.atom "probe", k] => (nat? k).map .probe
+  | _ => none
+
+/-- an errback that does arithmetic on a Failure is outside the alphabet -/
+def cb? : Sexp → Option Cb
+  | .list [.atom "cb", a, b, t] => do
+    let cb : Cb := ⟨← act? a, ← act? b, ← tag? t⟩
+    if cb.onFail = .inc then none else some cb
+  | _ => none
+
+def vm? : Sexp → Option VM
+  | .atom "always" => some .always | .atom "never" => some .never
+  | .list [.atom "equals", v] => (val? v).map .equals
+  | _ => none
+def fm? : Sexp → Option FM
+  | .atom "always" => some .always | .atom "never" => some .never
+  | .list [.atom "isExc", e] => (nat? e).map .isExc
+  | _ => none
+def matcher? : Sexp → Option Matcher
+  | .atom "noResult" => some .noResult
+  | .list [.atom "succeeded", m] => (vm? m).map .succeeded
+  | .list [.atom "failed", m] => (fm? m).map .failed
+  | _ => none
+
+def op? : Sexp → Option Op
+  | .atom "classify" => some .classify | .atom "extract" => some .extract
+  | .list [.atom "fire", r] => (res? r).map .fire
+  | .list [.atom "add", cb] => (cb? cb).map .add
+  | .list [.atom "resume", r] => (res? r).map .resume
+  | .list [.atom "match", m] => (matcher? m).map .matchD
+  | _ => none
+
+def kind? : Sexp → Option ExcKind
+  | .atom "failure" => some .failure | .atom "error" => some .error | .atom "skip" => some .skip
+  | _ => none
+def ofKind : ExcKind → Sexp
+  | .failure => .atom "failure" | .error => .atom "error" | .skip => .atom "skip"
+
+def beh? : Sexp → Option Beh
+  | .atom "returnsUnfired" => some .returnsUnfired
+  | .list [.atom "returns", v] => (val? v).map .returns
+  | .list [.atom "raises", k] => (kind? k).map .raises
+  | .list [.atom "returnsFired", k, v] => do some (.returnsFired (← opt? kind? k) (← val? v))
+  | _ => none
+
+def input? : Sexp → Option Input
+  | .list [.atom "history", ops] => (list? op? ops).map .history
+  | .list [.atom "runUser", b] => (beh? b).map .runUser
+  | _ => none
+
+def extracted? : Sexp → Option Extracted
+  | .atom "notFired" => some .notFired
+  | .list [.atom "value", v] => (val? v).map .value
+  | .list [.atom "raised", e] => (nat? e).map .raised
+  | _ => none
+def ofExtracted : Extracted → Sexp
+  | .notFired => .atom "notFired"
+  | .value v => tag "value" [ofVal v]
+  | .raised e => tag "raised" [ofNat e]
+
+def obs? : Sexp → Option Obs
+  | .atom "added" => some .added
+  | .list [.atom "fired", a] => (bool? a).map .fired
+  | .list [.atom "resumed", a] => (bool? a).map .resumed
+  | .list [.atom "verdict", a, b, c] => do some (.verdict (← bool? a) (← bool? b) (← bool? c))
+  | .list [.atom "classes", a, b, c] => do some (.classes (← bool? a) (← bool? b) (← bool? c))
+  | .list [.atom "extracted", x] => (extracted? x).map .extracted
+  | _ => none
+def ofObs : Obs → Sexp
+  | .added => .atom "added"
+  | .fired a => tag "fired" [ofBool a]
+  | .resumed a => tag "resumed" [ofBool a]
+  | .verdict a b c => tag "verdict" [ofBool a, ofBool b, ofBool c]
+  | .classes a b c => tag "classes" [ofBool a, ofBool b, ofBool c]
+  | .extracted x => tag "extracted" [ofExtracted x]
+
+def outcome? : Sexp → Option Outcome
+  | .atom "success" => some .success | .atom "notFired" => some .notFired
+  | .list [.atom "reported", k] => (kind? k).map .reported
+  | _ => none
+def ofOutcome : Outcome → Sexp
+  | .success => .atom "success" | .notFired => .atom "notFired"
+  | .reported k => tag "reported" [ofKind k]
+
+def trace? : Sexp → Option Trace
+  | .list [.atom "history", obs, seen, c, l] => do
+    some (.history (← list? obs? obs) (← list? (pair? nat? res?) seen) (← bool? c) (← bool? l))
+  | .list [.atom "runUser", o] => (outcome? o).map .runUser
+  | _ => none
+def ofTrace : Trace → Sexp
+  | .history obs seen c l => tag "history" [ofList ofObs obs, ofList (ofPair ofNat ofRes) seen, ofBool c, ofBool l]
+  | .runUser o => tag "runUser" [ofOutcome o]
+
+def drv : PropDrv Input Trace :=
+  { decI := input?, decT := trace?, encT := ofTrace, model := model, clauses := Spec.C20.clauses }
+
+def handle : List Sexp → Sexp := drv.handle
 end TTV.Drv.C20
